@@ -3,12 +3,48 @@ package props
 import (
 	"astverif/itersafe"
 	"astverif/pathint"
+	"astverif/report"
+	"astverif/tables"
 )
 
 func init() { register("C03", "other", c03) }
 
 // demuxRoots are the entry points whose reachable code is "the demux path".
 var demuxRoots = []string{"Demuxer.NextPacket", "Demuxer.NextData", "Demuxer.Rewind", "NewDemuxer"}
+
+// engineC runs the iterator-safety engine once and returns its raw report (other properties import
+// individual rules from it).
+func engineC(c *Ctx) *report.Report {
+	tmp := report.New("tmp", c.Tier, "other")
+	ck := itersafe.New(c.P)
+	ck.IP.SuffixLo = map[string]int64{".optPacketSize": 0}
+	ck.IP.NonZeroLo = map[string]int64{".optPacketSize": 188, "$packetSize": 188}
+	ck.IP.FieldInvs = []pathint.FieldInv{{Type: "packetBuffer", Field: "packetSize", Lo: 188}}
+	ck.Run(tmp, demuxRoots)
+	return tmp
+}
+
+// importRules copies the obligations of the given rules from one report into another.
+func importRules(dst, src *report.Report, rules ...string) int {
+	n := 0
+	for _, o := range src.Obls {
+		for _, rl := range rules {
+			if o.Rule == rl {
+				key := o.Key[len(o.Rule)+1:]
+				switch o.Status {
+				case report.Discharged:
+					dst.OK(o.Rule, key, o.Pos, o.Detail)
+				case report.Violated:
+					dst.Bad(o.Rule, key, o.Pos, o.Detail)
+				default:
+					dst.Unknown(o.Rule, key, o.Pos, o.Detail)
+				}
+				n++
+			}
+		}
+	}
+	return n
+}
 
 func c03(c *Ctx) {
 	r := c.R
@@ -21,4 +57,8 @@ func c03(c *Ctx) {
 	ck.IP.NonZeroLo = map[string]int64{".optPacketSize": 188, "$packetSize": 188}
 	ck.IP.FieldInvs = []pathint.FieldInv{{Type: "packetBuffer", Field: "packetSize", Lo: 188}}
 	ck.Run(r, demuxRoots)
+	// T1 clause: the syntax header pointer is only dereferenced for table ids that have one (no nil dereference)
+	tables.T1(c.P, r)
+	r.Floor("P5", "progress-on-error return classes of NextPacket", r.Counters["sites_P5"], 1)
+	r.Floor("P6", "declared-end loops", r.Counters["sites_P6"], 1)
 }
